@@ -123,6 +123,31 @@ CHECKS['C20'] = (
     'after an exception.',
     'DESIGN.md section 6 C20')
 
+CHECKS['C07'] = (
+    'exhaustive enumeration of cluster-assignment vectors x dtypes x spike-id vectors x requested '
+    'cluster tuples x lookup permutations (space mode) against set-theoretic definitions',
+    'Bounded exhaustive exploration: every vector of length 0..6 (8) over the gapped alphabet {0,2,5} '
+    'in int32/int64/uint16/uint32, with and without a gapped spike-id vector; on each: grouping, '
+    'flatten, unique, every requested-cluster tuple of length <= 3 over {0,2,5,7} as list and array, '
+    'every permutation of the present ids (+ an absent one) as lookup, 1-D and 2-D grouped means; an '
+    'enumerated periodic long family (length 67/131) where an unstable sort is observable; and a '
+    'many-ids family (200..40000 distinct ids, permuted lookups) where narrow index types overflow. '
+    'The TemplateModel query methods are covered with the dataset generator.',
+    'Ids are non-negative (documented precondition); long inputs only from the enumerated families.',
+    'DESIGN.md section 6 C07')
+CHECKS['C17'] = (
+    'exhaustive enumeration of selector configurations x calls (space mode) with stateless '
+    'exploration of every np.random.choice outcome (env mode: every k-subset is an alternative)',
+    'Bounded exhaustive exploration: every non-decreasing spike-time vector of <= 4 (5) spikes on a '
+    '5-(6-)point grid x every labelling over two clusters x every chunk grid of 2..5 bounds on the '
+    'same grid x kept-chunk counts 1..4 x requested counts {None,0,1,2,10} x cluster lists {[],[0],'
+    '[1,0],[0,7]} x chunk restriction x subset; np.random.choice is patched to a choice oracle and '
+    'every schedule of draws is run (6.5e6 executions quick). Each result is checked for strict '
+    'increase, membership in requested clusters / kept chunks / subset, exact per-cluster counts, and '
+    'chunks_kept against the stride rule.',
+    'np.random.choice is the only randomness; time types int64/float64/uint64.',
+    'DESIGN.md section 6 C17')
+
 NOT_YET = {}
 
 ALL = ['C%02d' % i for i in range(1, 21)]
